@@ -94,3 +94,17 @@ META["C14"] = {
         "independence of N is shown for the enumerated sequences and families only",
     ],
 }
+
+META["C10"] = {
+    "level": "exploration",
+    "tiers": {
+        "quick": {"shards": 3, "deadline_s": 200,
+                  "bounds": "3 types x 9 standard engines x {PLAIN, VEGAS, MULTI-CHANNEL (weight touched or not)} x d in {1,2,3} x calls in {0,1,2,5} x 4 integrand patterns x {default, user grid / weights with one disabled channel, weights with a single enabled channel}; stored generators over 3 iterations (3,0,5 calls); engine ranges R = 2..4096, 2^k, 2^k+-1 (k <= 64), offsets 0,1,5"},
+        "thorough": {"shards": 3, "deadline_s": 600, "bounds": "same as quick (the product is already complete)"},
+    },
+    "rule": "full product of configurations; the counting engine wrapper counts raw draws, the integrand snapshots the counter at every call; non-trivial = at least one call and a non-zero integrand pattern; distinct = distinct configurations",
+    "assumptions": [
+        "draws are counted by deriving from the standard engine and shadowing operator(); discard() is not counted",
+        "libstdc++'s std::generate_canonical as installed (g++ 12.2)",
+    ],
+}
